@@ -924,19 +924,20 @@ caf_read_strings (SF_PRIVATE * psf, sf_count_t chunk_size)
 
 struct put_buffer
 {	uint32_t index ;
-	char s [16 * 1024] ;
+	uint32_t len ;
+	char *s ;
 } ;
 
 static uint32_t
 put_key_value (struct put_buffer * buf, const char * key, const char * value)
 {	uint32_t written ;
 
-	if (buf->index + strlen (key) + strlen (value) + 2 > sizeof (buf->s))
+	if (buf->index + strlen (key) + strlen (value) + 2 > buf->len)
 		return 0 ;
 
-	written = snprintf (buf->s + buf->index, sizeof (buf->s) - buf->index, "%s%c%s%c", key, 0, value, 0) ;
+	written = snprintf (buf->s + buf->index, buf->len - buf->index, "%s%c%s%c", key, 0, value, 0) ;
 
-	if (buf->index + written >= sizeof (buf->s))
+	if (buf->index + written >= buf->len)
 		return 0 ;
 
 	buf->index += written ;
@@ -949,7 +950,11 @@ caf_write_strings (SF_PRIVATE * psf, int location)
  	const char * cptr ;
 	uint32_t k, string_count = 0 ;
 
-	memset (&buf, 0, sizeof (buf)) ;
+	/* Room for every stored string plus the longest key ("tracknumber") in front of each. */
+	buf.index = 0 ;
+	buf.len = psf->strings.storage_used + SF_MAX_STRINGS * 16 ;
+	if ((buf.s = calloc (1, buf.len)) == NULL)
+		return ;
 
 	for (k = 0 ; k < SF_MAX_STRINGS ; k++)
 	{	if (psf->strings.data [k].type == 0)
@@ -998,10 +1003,10 @@ caf_write_strings (SF_PRIVATE * psf, int location)
 			} ;
 		} ;
 
-	if (string_count == 0 || buf.index == 0)
-		return ;
+	if (string_count != 0 && buf.index != 0)
+		psf_binheader_writef (psf, "Em84b", BHWm (info_MARKER), BHW8 (buf.index + 4), BHW4 (string_count), BHWv (buf.s), BHWz (buf.index)) ;
 
-	psf_binheader_writef (psf, "Em84b", BHWm (info_MARKER), BHW8 (buf.index + 4), BHW4 (string_count), BHWv (buf.s), BHWz (buf.index)) ;
+	free (buf.s) ;
 } /* caf_write_strings */
 
 /*==============================================================================
